@@ -36,6 +36,9 @@ pub enum Lie {
 pub enum WOp {
     Push { texts: Vec<String> },
     Extend { items: Vec<Vec<String>>, lie: Lie, panic_at: Option<u32> },
+    /// honest batch of `n` items with short texts derived from `seed` (crosses the shipped initial
+    /// capacities: 2016 / 4064 entries are pre-allocated; thresholds inside the library)
+    ExtendBig { n: u32, seed: u64 },
     /// the next fill callback of this writer parks on gate `gate` (F1)
     HoldNextFill { gate: u32 },
     /// the next fill callback burns `k` scheduling points
@@ -660,6 +663,16 @@ impl<'a> Ui<'a> {
             });
             drop(n);
             sim::log("ui dropped Nucleo".to_string());
+            // C11 (mechanism "Nucleo::drop waits for the worker"): every job that tick handed to
+            // the pool holds the worker lock until its run has ended, and drop takes that lock
+            let (spawned, ended) = sim::with(|s| (s.probes.get("tick.spawn").copied().unwrap_or(0), s.probes.get("run.end").copied().unwrap_or(0)));
+            if spawned != ended {
+                soft(
+                    "C11",
+                    "drop-did-not-wait",
+                    format!("Nucleo::drop returned while a background run was still queued or running ({spawned} runs spawned, {ended} ended): the worker and the item stream it holds outlive the last handle"),
+                );
+            }
         }
     }
 
@@ -939,7 +952,18 @@ fn writer_main(w: usize, inj: Injector<Payload>, s: u32, ops: Vec<WOp>, gates: V
                     }
                 }
             }
-            WOp::Extend { items, lie, panic_at } => {
+            WOp::Extend { .. } | WOp::ExtendBig { .. } => {
+                let big;
+                let (items, lie, panic_at) = match op {
+                    WOp::Extend { items, lie, panic_at } => (items, lie, panic_at),
+                    WOp::ExtendBig { n, seed } => {
+                        let mut r = SplitMix::derive(*seed, 3);
+                        big = (0..*n).map(|_| (0..cols).map(|_| gen::rstr(&mut r, gen::ITEM_ALPHA, 1, 3)).collect::<Vec<String>>()).collect::<Vec<_>>();
+                        sim::probe("writer.extend_big");
+                        (&big, &Lie::Honest, &None)
+                    }
+                    _ => unreachable!(),
+                };
                 let payloads: Vec<Payload> = items.iter().map(|t| new_payload(s, t, cols)).collect();
                 let uids: Vec<u32> = payloads.iter().map(|p| p.uid).collect();
                 let n = payloads.len();
@@ -1051,6 +1075,13 @@ impl Job for NucleoScript {
     }
     fn capacity_knob(&self) -> Option<u32> {
         self.capacity
+    }
+    fn yield_every(&self) -> u32 {
+        if self.writers.iter().flatten().any(|o| matches!(o, WOp::ExtendBig { .. })) {
+            16
+        } else {
+            1
+        }
     }
     fn body(&self) {
         let nw = self.writers.len();
